@@ -141,7 +141,10 @@ def stepLine30 (d : D30) (line : String) : D30 × String :=
           -- (1) a shown record whose stored expiry is pre-epoch
           let pre := !d.s.dead && (shownKeys o.r).any fun k => decide (storedExp d.s k < 0)
           -- (2) an expiry-driven selection that differs from the definition applied to the store
-          let stale := !d.s.dead && (match refKeys now before req with
+          -- equal expiries on different keys leave the index order open (unstable sort): no verdict then
+          let exps := (before.map fun p => p.2.m.exp).filter (· != 0)
+          let ties := decide (exps.eraseDups.length ≠ exps.length)
+          let stale := !d.s.dead && !ties && (match refKeys now before req with
             | some ks => (match o.r with | .err _ => false | _ => decide (ks ≠ replyKeys o.r))
             | none => false)
           let tags := match req with | .kv r => (Model.step d.cfg ieee now d.s r).tags | _ => []
